@@ -190,7 +190,7 @@ impl Check for C15Check {
          variable per iteration), x schedule \
          (leaf timing, yields, reorders) x consumer script over one Query (re-runs, up to three interleaved iterators, \
          drops): every exhausted iterator returns the reference interpreter's multiset (new variables per unfolding), a \
-         partial one a sub-multiset; or (b) one of 12 macro-written corpus relations (shadowing, sibling scopes, one closure goal object solved twice, pattern arms \
+         partial one a sub-multiset; or (b) one of 13 macro-written corpus relations (shadowing, sibling scopes, one closure goal object solved twice, an enclosing variable used in an arm whose sibling binds the same name, pattern arms \
          reusing names, repeated pattern variables, recursion through proto_vulcan_closure!, two live invocations) under a \
          seeded schedule: its answers equal the hand-listed expectation and its hand-renamed twin's answers. Not covered: \
          generated surface syntax (compile-time). Threads: shuttle harness in /verif/threads, reported in the same evidence \
